@@ -267,8 +267,13 @@ def write_evidence(ctx, coverage, assumptions, violations=0):
         'wall_s': round(time.time() - ctx.t0, 2),
         'violations': int(violations),
     }
-    os.makedirs(os.path.join(VERIF, 'evidence'), exist_ok=True)
-    p = os.path.join(VERIF, 'evidence', ctx.prop + '.json')
+    # runs against another source tree (mutation trials: VERIF_REPO / VERIF_COQ) never touch
+    # /verif/evidence, which must describe runs of /verif against /repo itself
+    evdir = os.path.join(VERIF, 'evidence')
+    if os.path.realpath(REPO) != '/repo' or os.environ.get('VERIF_COQ'):
+        evdir = os.path.join(COQ, 'evidence_scratch')
+    os.makedirs(evdir, exist_ok=True)
+    p = os.path.join(evdir, ctx.prop + '.json')
     tmp = p + f'.tmp{os.getpid()}'
     with open(tmp, 'w') as f:
         json.dump(ev, f, indent=1, default=str)
